@@ -118,6 +118,9 @@ def analyse(seed):
       tbrfam.pts(list(zip(x, y))), tbrfam.qm(T), tbrfam.qm(phi), tbrfam.qm(tqs), tbrfam.qm(tqp), tbrfam.qm(impact),
       tbrfam.qm(float(d.estimate_required_impact(0.9))), tbrfam.qm(xt), tbrfam.qm(yt), tbrfam.qm(float(fit.estimate)),
       tbrfam.qm(float(fit.scale)))
+  if all(v == v and abs(v) != float('inf') for v in (impact, float(fit.estimate), float(fit.scale))):
+    out['iterm'] = tbrfam.impact_term(d, y, T, sig, power, flevel, rng.choice([0.9, 0.0, -0.35, 0.5]))
+    out['fterm'] = tbrfam.tbrfit_term(d, x, y, T, sig, xt, yt)
   out['params'] = {'reused_object': reuse, 'n_pretest_max': npm or 90, 'n': n, 'n_test': T, 'sig_level': sig, 'power_level': power, 'flevel': flevel}
   return out
 
@@ -132,7 +135,7 @@ def _one(seed):
 
 def run(tier):
   ck = Check('C05', tier)
-  ck.prove('props/C05.v', gen_targets=[], extra=['harness/RunTBR.vo'])
+  ck.prove('props/C05.v', gen_targets=['formulas'], extra=['harness/RunTBR.vo', 'harness/RunFormulas.vo'])
   n = common.sz(tier, 200, 5000)
   res = common.pmap(_one, [ck.seed * 100003 + 5 * 1009 + i for i in range(n)], chunksize=4)
   terms, owners, known = [], [], 0
@@ -152,6 +155,12 @@ def run(tier):
   bad = model_compare(ck, terms, 'c05', fn='dcheck', shard=8)
   if bad:
     ck.tie_broken('correspondence', 'TBRMMDiagnostics vs model/TBRMath.v on %d of %d cases' % (len(bad), len(terms)), {'seed': owners[bad[0]]})
+  fo = [o for o in res if 'iterm' in o]
+  bi, bf = tbrfam.formulas_compare(ck, [o['iterm'] for o in fo], [o['fterm'] for o in fo], 'c05')
+  if bi or bf:
+    ck.tie_broken('correspondence', 'regenerated formulas (gen/Gen_Formulas.v on floats) vs TBRMMDiagnostics: estimate_required_impact '
+                  'on %d, tbrfit on %d of %d cases' % (len(bi), len(bf), len(fo)), {'seed': fo[(bi or bf)[0]]['seed']})
+  ck.cov['regenerated_formulas_vs_impl'] = {'cases': len(fo), 'estimate_required_impact_disagreements': len(bi), 'tbrfit_disagreements': len(bf)}
   ck.sample(res[0].get('params', {}))
   ck.sample(res[1].get('params', {}))
   ck.cov['rule'] = ('random pretest series (n = 5-60, in 15% of the cases 95-130 i.e. longer than the default n_pretest_max, in 15% with n_pretest_max in {3,6,10,20}; three noise levels, noisier first half), on a fresh TBRMMDiagnostics object or (half of the cases) on one that analysed series of another length before, n_test 1-30, (sig_level, power_level) from a grid that includes '
